@@ -1848,7 +1848,9 @@ class RawAlgorithmsMixIn:
                     rank += 1
 
             Rinv[p] = 0.
-            if rank != 0:
+            # (only the higher coefficients need the inverse: the plain
+            # factorization DT = 1 exists for every matrix)
+            if rank != 0 and DT > 1:
                 Rinv[p,:rank,:rank] = numpy.linalg.inv(R_data[0,p,:rank,:rank])
 
         # ITERATE: compute the derivatives
@@ -1925,7 +1927,7 @@ class RawAlgorithmsMixIn:
             dF = numpy.zeros((M,N))
             S = numpy.zeros((M,M))
             X  = numpy.zeros((M,M))
-            PL = numpy.array([[ r > c for c in range(M)] for r in range(M)],dtype=float)
+            PL = numpy.tril(numpy.ones((M,M)), -1)
             Rinv = numpy.zeros((N,N))
             K  = numpy.zeros((M,M))
 
@@ -1937,8 +1939,10 @@ class RawAlgorithmsMixIn:
             # d = 0: compute the base point
             Q_data[0,p,:,:], R_data[0,p,:,:] = scipy.linalg.qr(A_data[0,p,:,:])
 
-            # d > 0: iterate
-            Rinv[:,:] = numpy.linalg.inv(R_data[0,p,:N,:])
+            # d > 0: iterate (the plain factorization D = 1 exists for every
+            # matrix: nothing to invert)
+            if D > 1:
+                Rinv[:,:] = numpy.linalg.inv(R_data[0,p,:N,:])
 
             for d in range(1,D):
                 # STEP 1: compute dF and S
